@@ -89,6 +89,9 @@ def components():
     add('sa', lambda i: [('n%d' % i, I(1)), ('l%d' % i, S(I(1), F('n%d' % i), aligned=2))])
     add('sra', lambda i: [('n%d' % i, I(1)), ('l%d' % i, S(R(SUB), F('n%d' % i), aligned=4))])
     add('srd', lambda i: [('l%d' % i, S(R(PT), C(1), default=[PV('Pt', {'x': 4, 'y': 2}), PV('Pt', {'x': 5, 'y': 6})]))])
+    add('sua', lambda i: [('l%d' % i, S(I(1), until={'u': 'last_eq', 'v': 0}, aligned=2))])
+    add('sura', lambda i: [('l%d' % i, S(R(SUB), until={'u': 'last_eq', 'attr': 'x', 'v': 0}, aligned=2))])
+    add('suoa', lambda i: [('h%d' % i, I(1)), ('l%d' % i, S(D(C(1)), until={'u': 'off_ge', 'v': 4}, aligned=2))])
     add('sd', lambda i: [('l%d' % i, S(I(1), C(2), default=[7, 8]))])
     # ---- optional
     add('o1', lambda i: [('t%d' % i, I(1)), ('o%d' % i, O(I(1), F('t%d' % i)))])
@@ -127,7 +130,7 @@ def components():
 COMPONENTS = components()
 
 # one representative per mechanism, used for pairs in the quick tier and triples in the thorough tier
-REDUCED = ['i1', 'i2l', 'i3', 'dn', 'dx', 'm0', 'mab', 'rx', 'rxlb', 'b35', 'r1', 'rs', 'sn', 'ss', 'su', 'suo', 'sw', 'sa', 'sr', 'o1', 'os', 'or',
+REDUCED = ['i1', 'i2l', 'i3', 'dn', 'dx', 'm0', 'mab', 'rx', 'rxlb', 'b35', 'r1', 'rs', 'sn', 'ss', 'su', 'suo', 'sua', 'sw', 'sa', 'sr', 'o1', 'os', 'or',
            'p_at3', 'p_atn', 'p_shm1', 'p_shm2d', 'p_al2', 'p_al4i', 'p_em4', 'p_d0', 'eos']
 
 
